@@ -10,7 +10,7 @@ use std::{
 pub(super) fn list_of_log_and_compressed_files(
     file_spec: &FileSpec,
     infix_filter: &InfixFilter,
-) -> Vec<PathBuf> {
+) -> std::io::Result<Vec<PathBuf>> {
     existing_log_files(
         file_spec,
         true,
@@ -24,10 +24,10 @@ pub(super) fn existing_log_files(
     use_rotation: bool,
     infix_filter: &InfixFilter,
     selector: &LogfileSelector,
-) -> Vec<PathBuf> {
+) -> std::io::Result<Vec<PathBuf>> {
     let mut result = Vec::new();
-    let related_files = file_spec.read_dir_related_files();
     if use_rotation {
+        let related_files = file_spec.read_dir_related_files()?;
         if selector.with_plain_files {
             result.append(&mut file_spec.filter_files(
                 &related_files,
@@ -55,7 +55,7 @@ pub(super) fn existing_log_files(
     } else {
         result.push(file_spec.as_pathbuf(None));
     }
-    result
+    Ok(result)
 }
 
 pub(super) fn remove_or_compress_too_old_logfiles(
@@ -112,7 +112,7 @@ pub(crate) fn remove_or_compress_too_old_logfiles_impl(
         log_limit = 1;
     }
 
-    for (index, file) in list_of_log_and_compressed_files(file_spec, infix_filter)
+    for (index, file) in list_of_log_and_compressed_files(file_spec, infix_filter)?
         .into_iter()
         .enumerate()
     {
